@@ -357,6 +357,42 @@ func singleOpProgs(r *RNG, q *big.Int, thorough bool) []*Prog {
 	return progs
 }
 
+// scaledOperandProgs: ops whose operands must be boolean (or are asserted so), applied to a SCALED term c*x that the
+// builders keep as (coefficient, wire) without a new wire: the assertion is about the value c*x, not about the wire x
+func scaledOperandProgs() []*Prog {
+	var progs []*Prog
+	mkScaled := func(kind string, c int64) Op {
+		switch kind {
+		case "Neg":
+			return Op{Kind: "Neg", Args: []Arg{{V: 0}}}
+		case "Add":
+			return Op{Kind: "Add", Args: []Arg{{V: 0}, {V: 0}}}
+		case "DivUnchecked":
+			return Op{Kind: "DivUnchecked", Args: []Arg{{V: 0}, {Const: true, C: big.NewInt(c)}}}
+		}
+		return Op{Kind: "Mul", Args: []Arg{{V: 0}, {Const: true, C: big.NewInt(c)}}}
+	}
+	for _, sc := range []struct {
+		kind string
+		c    int64
+	}{{"Mul", 2}, {"Mul", 46}, {"Mul", 23}, {"Neg", 0}, {"Add", 0}, {"DivUnchecked", 2}} {
+		// inputs: v0 = x, v1 = y ; v2 = scaled(x)
+		for _, cons := range []Op{
+			{Kind: "AssertIsBoolean", Args: []Arg{{V: 2}}},
+			{Kind: "Xor", Args: []Arg{{V: 2}, {V: 1}}},
+			{Kind: "And", Args: []Arg{{V: 1}, {V: 2}}},
+			{Kind: "Select", Args: []Arg{{V: 2}, {V: 1}, {V: 0}}},
+		} {
+			p := &Prog{NbPub: 1, NbSec: 1, Ops: []Op{mkScaled(sc.kind, sc.c), cons}}
+			if cons.Kind != "AssertIsBoolean" {
+				p.Outs = []int{3}
+			}
+			progs = append(progs, p)
+		}
+	}
+	return progs
+}
+
 func allTuples(n int, p int) [][]int64 {
 	if n == 0 {
 		return [][]int64{{}}
@@ -415,6 +451,7 @@ func runC05(args []string) int {
 	rep.Rule = "every API op x every constant/variable operand pattern (single-op programs) plus seeded multi-op programs are compiled by the real r1cs and scs builders over F_47; for every input tuple (all 47^k tuples for k<=2 inputs, a boundary-biased sample otherwise) the complete set of satisfying assignments of the *emitted* constraints is enumerated (Go search + verified Coq enumerator) and its projection on the exposed outputs is compared with the documented meaning; non-trivial = tuple on a system with at least one constraint; distinct = distinct (target, program, tuple)"
 	q := tinyMod
 	progs := singleOpProgs(rng, q, o.Thorough())
+	progs = append(progs, scaledOperandProgs()...)
 	nrand := 30
 	maxTuples := 300
 	if o.Thorough() {
